@@ -3,6 +3,7 @@ import os, sys, json, math, struct, re, shutil, glob, time, itertools
 from fractions import Fraction
 import vlib
 from checks import C06
+from checks import c07_poet
 
 
 def _unhex(h):
@@ -16,11 +17,14 @@ def _unhex(h):
 
 
 META = {
-    "technique": "Lean 4 theorems over a model of Table::Query / match_extra_code / chunk iterator / script and table translation on "
-                 "the C06 index + differential correspondence with the real dictionary and translators on generated dictionaries, "
-                 "exhaustive short inputs",
+    "technique": "Lean 4 theorems over a model of Table::Query / match_extra_code / chunk iterator / script and table translation / the "
+                 "sentence maker (Poet) on the C06 index + differential correspondence with the real dictionary, translators and Poet on "
+                 "generated dictionaries and word graphs, exhaustive short inputs",
     "level": "proof",
-    "level_text": ("Theorems C07.query_sound / query_complete (w.r.t. spells: a path of the syllable graph carrying the code), "
+    "level_text": ("Sentence maker (Poet, no grammar plugin) INSIDE the model: poet_sentence_is_path (every weight structure, every compare "
+                   "function), poet_none_iff_unreachable / poet_some_iff_path, poet_sentence_optimal (CompareWeight, strict weak order + monotone "
+                   "addition), poet_left_associate_optimal (integer weights), table_/script_sentence_is_concatenation_of_entries. "
+                   "Theorems C07.query_sound / query_complete (w.r.t. spells: a path of the syllable graph carrying the code), "
                    "match_extra_sound / match_extra_farthest, iterator_perm / iterator_order (every emitted entry is a best chunk head, "
                    "each chunk in table order), script_order (descending end position after an optional sentence), "
                    "table_exact_then_completion, distinct_nodup, and for table schemas with enable_sentence word_graph_edges_sound / "
@@ -32,10 +36,14 @@ META = {
                    "prism's GetValue/ExpandSearch answers (C09), the compiled table (C06). TableTranslator::MakeSentence (enable_sentence, static-dictionary branch) IS in the Lean model: word graph over the "
                    "prism's CommonPrefixSearch answers (recorded) with consume_trailing_delimiters, the poet's reachability, the collector "
                    "of first words and SentenceTranslation's emission order; its user-dictionary/encoder branches and "
-                   "sentence_over_completion are not. Sentence composition (Poet) is an oracle: "
-                   "only 'a sentence is a concatenation of entries whose codes (+ delimiters) cover the input' is monitored against a "
-                   "brute-force reference (script and table), plus completeness of the first-word entries; the model decides when a "
-                   "sentence is due (script: Evaluate's condition; table: the end is reachable in the word graph). Sums credibility+weight are exact in the model and rounded to double in the "
+                   "sentence_over_completion are not. Sentence composition (Poet::MakeSentence, DynamicProgramming strategy, both compare "
+                   "functions, Sentence::Extend) is a line-by-line Lean port (RimeModel/C07/Poet.lean) applied to the model's word graphs "
+                   "(script: Dictionary::Lookup from every start position, first entry per end; table: first entry of the first key per edge); "
+                   "the candidate lists are compared INCLUDING the sentence (the port run with IEEE doubles), and the port is compared bit for bit "
+                   "with the real Poet on thousands of generated word graphs (c07_harness --poet), with a brute-force optimality monitor. "
+                   "Not modelled: the BeamSearch strategy (only with a grammar plugin), max_homophones/max_homographs > 1, user dictionary. "
+                   "The theorems use exact weights (any ordered weight structure / integers / dyadic numbers); LeftAssociateCompare's "
+                   "tie-breaking is proved for exact arithmetic only (rounding can merge two weights that differ). Sums credibility+weight are exact in the model and rounded to double in the "
                    "code (same order except within one ulp; lists are compared modulo such ties). User dictionary, corrector, "
                    "contextual suggestions, max_homophones, charset filter, encoder: off."),
     "design_ref": "DESIGN.md §3 C07",
@@ -43,12 +51,54 @@ META = {
 
 SRC_FILES = ["src/rime/dict/dictionary.cc", "src/rime/dict/table.cc", "src/rime/gear/script_translator.cc",
              "src/rime/gear/table_translator.cc", "src/rime/gear/translator_commons.cc", "src/rime/translation.cc",
-             "src/rime/candidate.cc", "src/rime/algo/syllabifier.cc", "src/rime/dict/prism.cc"]
-GEN_VERSION = 3
+             "src/rime/candidate.cc", "src/rime/algo/syllabifier.cc", "src/rime/dict/prism.cc", "src/rime/gear/poet.cc",
+             "src/rime/gear/poet.h", "src/rime/gear/grammar.h"]
+GEN_VERSION = 4
 KS = 18.420680743952367
 
 
 # ------------------------------------------------------------------------------------------------ configurations
+# every option the two translators read (script_translator.cc 172-185, table_translator.cc 210-231, translator_commons.cc 114-127):
+# name -> the explicit values a generated schema may give it, besides leaving it out.  Values that switch on something the
+# model does not cover are not generated (corrector; charset filter — the generated texts include bytes that are no UTF-8, which
+# the filter decodes unchecked into arbitrary code points; more than one homophone/homograph per edge); enable_user_dict is
+# always an explicit false (the property is about learning disabled).
+# Options without effect on the candidate list here (no user dictionary, no grammar plugin, comments are not compared):
+# enable_encoder, encode_commit_history, max_phrase_length, contextual_suggestions, spelling_hints, always_show_comments,
+# initial_quality.
+OPTION_VALUES = {
+    "enable_completion": [True, False], "enable_word_completion": [True, False], "enable_sentence": [True, False],
+    "strict_spelling": [True, False, False], "sentence_over_completion": [True, False], "enable_charset_filter": [False],
+    "enable_encoder": [True, False], "encode_commit_history": [True, False], "max_phrase_length": [5],
+    "enable_correction": [False], "contextual_suggestions": [True, False], "spelling_hints": [0, 1, 4],
+    "always_show_comments": [True, False], "max_homophones": [1], "max_homographs": [1], "initial_quality": [0, 1.5, -2],
+}
+
+
+def gen_options(rng):
+    """every option: left out, or one of its explicit values"""
+    return {k: rng.choice([None] + v) for k, v in sorted(OPTION_VALUES.items())}
+
+
+def effective(cfg):
+    """what the options amount to (defaults: enable_completion true, enable_word_completion = enable_completion,
+    enable_sentence true, strict_spelling false)"""
+    o = cfg.get("opts")
+    if o is None:
+        cfg.setdefault("word_completion", cfg["completion"])
+        return cfg
+    cfg["completion"] = True if o.get("enable_completion") is None else bool(o["enable_completion"])
+    cfg["word_completion"] = cfg["completion"] if o.get("enable_word_completion") is None else bool(o["enable_word_completion"])
+    cfg["sentence"] = True if o.get("enable_sentence") is None else bool(o["enable_sentence"])
+    cfg["strict"] = bool(o.get("strict_spelling"))
+    cfg["soc"] = bool(o.get("sentence_over_completion"))
+    return cfg
+
+
+def yaml_value(v):
+    return ("true" if v else "false") if isinstance(v, bool) else str(v)
+
+
 def schema_yaml(sid, kind, cfg):
     y = ["schema:", "  schema_id: %s" % sid, "  name: %s" % sid, "  version: '1'", "engine:", "  processors:",
          "    - speller", "    - selector", "    - navigator", "    - express_editor", "  segmentors:", "    - abc_segmentor",
@@ -56,12 +106,16 @@ def schema_yaml(sid, kind, cfg):
          "speller:", "  alphabet: '%s'" % cfg["alphabet"], '  delimiter: "%s"' % cfg["delims"]]
     if cfg.get("algebra"):
         y += ["  algebra:"] + ["    - %s" % a for a in cfg["algebra"]]
-    y += ["translator:", "  dictionary: %s" % cfg["dict"], "  prism: %s" % sid, "  enable_user_dict: false",
-          "  enable_completion: %s" % ("true" if cfg["completion"] else "false"),
-          "  strict_spelling: %s" % ("true" if cfg.get("strict") else "false"),
-          "  enable_correction: false", "  contextual_suggestions: false",
-          "  enable_sentence: %s" % ("true" if cfg.get("sentence") else "false"), "  enable_encoder: false",
-          "  enable_charset_filter: false", "menu:", "  page_size: 5"]
+    y += ["translator:", "  dictionary: %s" % cfg["dict"], "  prism: %s" % sid, "  enable_user_dict: false"]
+    if cfg.get("opts") is None:        # configurations recorded before the options were generated: everything explicit
+        y += ["  enable_completion: %s" % ("true" if cfg["completion"] else "false"),
+              "  strict_spelling: %s" % ("true" if cfg.get("strict") else "false"),
+              "  enable_correction: false", "  contextual_suggestions: false",
+              "  enable_sentence: %s" % ("true" if cfg.get("sentence") else "false"), "  enable_encoder: false",
+              "  enable_charset_filter: false"]
+    else:
+        y += ["  %s: %s" % (k, yaml_value(v)) for k, v in sorted(cfg["opts"].items()) if v is not None]
+    y += ["menu:", "  page_size: 5"]
     return "\n".join(y) + "\n"
 
 
@@ -113,6 +167,15 @@ def inputs_for(rng, cfg, max_len, n_random):
                 s += rng.choice(["", "", rng.choice(dl), rng.choice(dl), rng.choice(dl) * 2])
         if s and not (s[0] in delims and s[0] not in letters) and len(s) <= 16:
             out.append(s)
+    # the first 3, 4, 5 ... syllables of the dictionary's long phrases typed without delimiters (word completion: a phrase is
+    # predicted from its first syllables)
+    longs = sorted({tuple(x.decode("latin-1") for x in c) for t, c, w in rows if len(c) >= 4})
+    rng.shuffle(longs)
+    for c in longs[:12]:
+        for k in range(3, len(c) + 1):
+            s = "".join(c[:k])
+            if len(s) <= 14:
+                out.append(s)
     return list(dict.fromkeys(out))
 
 
@@ -121,8 +184,9 @@ def job_text(cfgs, inputs_by_cfg):
     for cfg in cfgs:
         for kind in ("script", "table"):
             sid = "%s%s" % (cfg["name"], kind[0])
-            lines.append("schema %s %s %d %d %s" % (sid, kind, 1 if cfg["completion"] else 0, 1 if cfg.get("strict") else 0,
-                                                    cfg["delims"].encode().hex() or "-"))
+            lines.append("schema %s %s %d %d %s %d" % (sid, kind, 1 if cfg["completion"] else 0, 1 if cfg.get("strict") else 0,
+                                                       cfg["delims"].encode().hex() or "-",
+                                                       1 if cfg.get("word_completion", cfg["completion"]) else 0))
             for s in inputs_by_cfg[cfg["name"]]:
                 lines.append("in %s" % s.encode().hex())
     return "\n".join(lines) + "\n"
@@ -178,17 +242,16 @@ def parse_impl(out):
 
 
 def model_input(sch, cfg):
-    o = ["table"] + sch["table"] + ["endtable", "cfg %s %d %s %d" % (sch["kind"], 1 if cfg["completion"] else 0,
-                                                                    cfg["delims"].encode().hex() or "-", 1 if cfg.get("sentence") else 0)]
+    o = ["table"] + sch["table"] + ["endtable", "cfg %s %d %s %d %d %d" % (sch["kind"], 1 if cfg["completion"] else 0,
+                                                                          cfg["delims"].encode().hex() or "-", 1 if cfg.get("sentence") else 0,
+                                                                          1 if cfg.get("word_completion", cfg["completion"]) else 0,
+                                                                          1 if cfg.get("soc") else 0)]
     for inp in sch["inputs"]:
         if not inp["done"] or inp["g"] is None:
             continue
         o.append("in %s" % inp["in"])
         o.append("g %d %d %d" % inp["g"][:3])
         o += inp["gi"]
-        if inp["c"] and inp["c"][0][0] == "sentence":
-            c = inp["c"][0]
-            o.append("sent %s %d %d %s" % c[:4])
         if inp["pv"]:
             o.append(inp["pv"])
         o += inp["px"]
@@ -212,6 +275,10 @@ def parse_model(out):
             lk.append((int(p[1]), p[2], p[3], (int(p[6]), int(p[7])), int(p[4]), int(p[5])))
         elif p[0] == "c":
             cur["c"].append((p[1], int(p[2]), int(p[3]), p[4]))
+        elif p[0] == "mf":      # the poet's port with IEEE doubles: start end texthex weightbits
+            cur["mf"] = None if p[1] == "none" else (int(p[1]), int(p[2]), p[3], dbl(int(p[4], 16)))
+        elif p[0] == "ms":      # the poet's port with exact dyadic arithmetic: start end texthex m e
+            cur["ms"] = None if p[1] == "none" else (int(p[1]), int(p[2]), p[3], (int(p[4]), int(p[5])))
         elif p[0] == "endin":
             cur["done"] = True
         elif p[0] == "bad-op":
@@ -241,7 +308,7 @@ def canon_runs(seq, keyf, wf, tol=1e-9):
     return out + sorted(run)
 
 
-def correspond_input(kind, inp, mo):
+def correspond_input(kind, inp, mo, stats=None):
     """model vs implementation for one input -> list of (clause, detail)"""
     bad = []
     if mo is None or not mo["done"]:
@@ -262,6 +329,34 @@ def correspond_input(kind, inp, mo):
                 bad.append(("weight", "entry weights differ: impl %s model %s" % (sorted(a)[:3], sorted(b)[:3])))
     ci = [c[:4] for c in inp["c"]]
     cm = mo["c"]
+    # the sentence: the real translator's against the port of the poet on the model's word graph (IEEE doubles, same operations)
+    si = ci[0] if ci and ci[0][0] == "sentence" else None
+    sm = cm[0] if cm and cm[0][0] == "sentence" else None
+    wi = [x[3] for x in inp.get("cw", []) if x[0] == "sentence"]
+    if si != sm:
+        mf = mo.get("mf")
+        # the model's credibilities are exact sums where the code rounds after every addition: a sentence of (nearly) the same
+        # weight is the same answer; anything else is a disagreement
+        if si and sm and mf and wi and si[:3] == sm[:3] and abs(mf[3] - wi[0]) <= 1e-9 * max(1.0, abs(wi[0])):
+            if stats is not None:
+                stats["sentence_rounding_ties"] += 1
+        else:
+            bad.append(("poet-sentence", "sentence: impl %s (weight %s), port of the poet on the model's word graph %s (%s)" %
+                        (si, wi[:1], sm, mf)))
+        ci = ci[1:] if si else ci
+        cm = cm[1:] if sm else cm
+    elif si is not None and stats is not None:
+        stats["sentences_compared_with_port"] += 1
+        mf = mo.get("mf")
+        if mf and wi and struct.pack("<d", mf[3]) == struct.pack("<d", wi[0]):
+            stats["sentence_weights_bit_identical"] += 1
+        ex = mo.get("ms")
+        if ex is None or (ex[0], ex[1], ex[2]) != (si[1], si[2], si[3]):
+            # exact dyadic arithmetic chose another sentence than the doubles did: legitimate only within rounding
+            if ex is not None and wi and abs(dy(ex[3]) - wi[0]) <= 1e-9 * max(1.0, abs(wi[0])):
+                stats["sentence_exact_vs_double_ties"] += 1
+            else:
+                bad.append(("poet-sentence-exact", "sentence with doubles %s (weight %s), with exact arithmetic %s" % (si, wi[:1], ex)))
     if ci != cm:
         # equal-weight neighbours may come in either order
         if sorted(ci) != sorted(cm) or not same_modulo_ties(kind, inp, ci, cm):
@@ -306,7 +401,7 @@ ALGEBRAS = [
 
 def gen_config(rng, name, quick=True):
     letters = rng.choice(["ab", "abc", "abc", "abcd"])
-    style = rng.choice(["mixed", "mixed", "mixed", "long", "words", "twins"])
+    style = rng.choice(["mixed", "mixed", "mixed", "long", "words", "twins", "ladders"])
     nsyl = rng.randint(2, 7)
     syl = set()
     while len(syl) < nsyl:
@@ -316,6 +411,9 @@ def gen_config(rng, name, quick=True):
     if style == "long":           # many codes beyond the index depth: tail pages, match_extra_code
         syl = set(sorted(syl)[:3]) | {letters[0]}
         lens = [3, 4, 4, 5, 5, 6, 7]
+    elif style == "ladders":      # phrases of 3..6 syllables that are prefixes of each other, few one-letter syllables
+        syl = set(letters[:rng.randint(2, 3)])
+        lens = [4, 5, 6, 4, 5, 6, 3, 2, 1]
     elif style == "words":        # table-style: one-syllable codes that extend each other
         syl = {letters[0] * k for k in (1, 2, 3)} | {"".join(rng.choice(letters) for _ in range(rng.randint(1, 4))) for _ in range(8)}
         lens = [1, 1, 1, 1, 2]
@@ -329,25 +427,32 @@ def gen_config(rng, name, quick=True):
     prof = dict(rows=(4, 40), clean=True, lens=lens,
                 weights=rng.choice(["ties", "plain", "ties"]), texts="dense", repeat_code=0.35, repeat_text=0.3, share_prefix=0.6,
                 sort=rng.choice([None, "by_weight", "original"]))
+    if style == "ladders":
+        prof.update(share_prefix=0.9, repeat_code=0.2, rows=(8, 40))
     n = rng.randint(*prof["rows"])
     f = C06.gen_file(rng, name + "d", syl, n, prof, columns_pool=False)
     case = {"name": name + "d", "files": [f]}
     delims = rng.choice(["'", "'", " '", "'"])
-    return {"name": name, "case": case, "alphabet": letters, "delims": delims, "completion": rng.random() < 0.6,
-            "strict": rng.random() < 0.2, "algebra": algebra, "style": style,
-            "sentence": rng.random() < (0.7 if style == "words" else 0.5)}   # table_translator/enable_sentence
+    opts = gen_options(rng)
+    if style == "words" and rng.random() < 0.5:      # a sentence in front of completions needs both (and words that are prefixes)
+        opts["sentence_over_completion"] = True
+        opts["enable_completion"] = rng.choice([None, True])
+    if style in ("long", "ladders") and rng.random() < 0.5:   # word completion decided by its own option
+        opts["enable_word_completion"] = rng.choice([True, False])
+    cfg = {"name": name, "case": case, "alphabet": letters, "delims": delims, "algebra": algebra, "style": style, "opts": opts}
+    return effective(cfg)
 
 
 def config_to_json(cfg):
-    j = {k: cfg.get(k) for k in ("name", "alphabet", "delims", "completion", "strict", "algebra", "sentence")}
+    j = {k: cfg.get(k) for k in ("name", "alphabet", "delims", "completion", "strict", "algebra", "sentence", "opts", "word_completion")}
     j["case"] = C06.case_to_json(cfg["case"])
     return j
 
 
 def config_from_json(j):
-    cfg = {k: j.get(k) for k in ("name", "alphabet", "delims", "completion", "strict", "algebra", "sentence")}
+    cfg = {k: j.get(k) for k in ("name", "alphabet", "delims", "completion", "strict", "algebra", "sentence", "opts")}
     cfg["case"] = C06.case_from_json(j["case"])
-    return cfg
+    return effective(cfg)
 
 
 # ------------------------------------------------------------------------------------------------ reference (O)
@@ -382,7 +487,8 @@ def monitor_script(cfg, rows, sid, inp):
         return bad
     edges, interp = graph_of(inp)
     cands = inp["c"]
-    predict = cfg["completion"] and interp == inp["g"][1]
+    wc = cfg.get("word_completion", cfg["completion"])      # enable_word_completion, by default enable_completion
+    predict = wc and interp == inp["g"][1]
     by_text = {}
     for text, code, w in rows:
         by_text.setdefault(text.hex(), []).append(tuple(sid[s] for s in code))
@@ -432,9 +538,11 @@ def monitor_script(cfg, rows, sid, inp):
                 bad.append(("unsound", "candidate %s [%d,%d) is no dictionary entry spelled by that prefix" %
                             (_unhex(t).decode("utf-8", "replace"), st, en)))
         elif ty == "completion":
-            if en not in pred_ends.get(t, ()) or not cfg["completion"]:
-                bad.append(("unsound", "completion %s [%d,%d) not licensed (completion=%s)" %
-                            (_unhex(t).decode("utf-8", "replace"), st, en, cfg["completion"])))
+            if en not in pred_ends.get(t, ()) or not wc:
+                bad.append(("unsound", "completion %s [%d,%d) not licensed (enable_completion=%s, enable_word_completion=%s: word "
+                            "completion %s)" % (_unhex(t).decode("utf-8", "replace"), st, en,
+                                               (cfg.get("opts") or {}).get("enable_completion", cfg["completion"]),
+                                               (cfg.get("opts") or {}).get("enable_word_completion"), "on" if wc else "off")))
         else:
             bad.append(("unsound", "unexpected candidate type %s" % ty))
         if last_end is not None and en > last_end:
@@ -516,13 +624,26 @@ def monitor_table(cfg, rows, sid, inp, by_weight):
     has_sentence = bool(inp["c"]) and inp["c"][0][0] == "sentence"
     if cfg.get("sentence") and not plain_possible:
         return bad + monitor_table_sentence(cfg, words, inp)
-    if cfg.get("sentence") and not exact and (has_sentence or not inp["c"]):
+    soc_shape = cfg.get("soc") and has_sentence and len(inp["c"]) > 1 and inp["c"][1][0] == "completion"
+    if cfg.get("sentence") and not exact and (has_sentence or not inp["c"]) and not soc_shape:
         return bad      # completion keys exist but the lazy lookup offered none of their words (first ten keys without words): K only
+    body = inp["c"]
+    seen = set()
     if has_sentence:
-        bad.append(("unsound", "a sentence although the input has %s" % ("entries of its own" if plain_possible else "enable_sentence off")))
-        return bad
-    seen, phase, lastw = set(), "table", None
-    for ty, st, en, t, cm in inp["c"]:
+        # sentence_over_completion: a sentence may precede a list that begins with a completion (no entry has exactly this code)
+        nxt = inp["c"][1][0] if len(inp["c"]) > 1 else None
+        if cfg.get("soc") and not exact and nxt in ("completion", None):
+            due, ok = table_sentence_cover(cfg, words, inp, inp["c"][0])
+            if not (due and ok):
+                bad.append(("sentence", "sentence %s [%d,%d) before the completions is not a concatenation of entries whose codes (+ delimiters) "
+                            "make up the input" % (_unhex(inp["c"][0][3]).decode("utf-8", "replace"), inp["c"][0][1], inp["c"][0][2])))
+            body = inp["c"][1:]
+            seen.add(inp["c"][0][3])
+        else:
+            bad.append(("unsound", "a sentence although the input has %s" % ("entries of its own" if plain_possible else "enable_sentence off")))
+            return bad
+    phase, lastw = "table", None
+    for ty, st, en, t, cm in body:
         if t in seen:
             bad.append(("duplicate", "text %s listed twice" % t))
         seen.add(t)
@@ -556,6 +677,59 @@ def monitor_table(cfg, rows, sid, inp, by_weight):
     if inp["pm"] == 0:
         bad.append(("prism-limit", "ExpandSearch with limit 10 is not a prefix of the unlimited search"))
     return bad
+
+
+def table_word_edges(cfg, words, inp):
+    """the word graph of the reference: start -> {end: set of texts}; a word = a key of the prism at that position with
+    one-syllable entries, followed by all the delimiters after it"""
+    raw = _unhex(inp["in"])
+    total = len(raw)
+    dl = cfg["delims"].encode()
+    edges = {}
+    for line in inp["cps"]:
+        p = line.split(" ")
+        sp, ln = int(p[1]), int(p[2])
+        if ln == 0:
+            continue
+        e = sp + ln
+        while e < total and raw[e:e + 1] and raw[e] in dl:
+            e += 1
+        texts = set()
+        for q in (p[3].split(",") if p[3] != "-" else []):
+            sy, ty = (int(x) for x in q.split(":"))
+            if ty <= 0:
+                texts.update(t for t, w in words.get(sy, []))
+        if texts:
+            edges.setdefault(sp, {}).setdefault(e, set()).update(texts)
+    return edges, total
+
+
+def table_sentence_cover(cfg, words, inp, s0):
+    """-> (a sentence is due: the end is reachable without the one word that spans everything,
+           s0 spans the input and is a concatenation of entries along such a cover)"""
+    edges, total = table_word_edges(cfg, words, inp)
+
+    def step(sp):
+        return [(e, ts) for e, ts in edges.get(sp, {}).items() if not (sp == 0 and e == total)]
+    fwd = {0}
+    for sp in range(total):
+        if sp in fwd:
+            fwd.update(e for e, _ in step(sp))
+    target = _unhex(s0[3])
+    ok, seen_st, todo = False, {(0, 0)}, [(0, 0)]
+    while todo and not ok:
+        pos, off = todo.pop()
+        for e, ts in step(pos):
+            for t in ts:
+                tb = _unhex(t)
+                if target.startswith(tb, off):
+                    st = (e, off + len(tb))
+                    if st == (total, len(target)):
+                        ok = True
+                    if st not in seen_st:
+                        seen_st.add(st)
+                        todo.append(st)
+    return total in fwd, ok and (s0[1], s0[2]) == (0, total)
 
 
 def monitor_table_sentence(cfg, words, inp):
@@ -716,7 +890,7 @@ def evaluate(run, cfgs, inputs_by_cfg, stats=None, want_model=True):
             if not inp["done"]:
                 continue
             o = monitor_script(cfg, wrows, sid, inp) if sch["kind"] == "script" else monitor_table(cfg, wrows, sid, inp, by_weight)
-            k = correspond_input(sch["kind"], inp, mo.get(inp["in"])) if want_model else []
+            k = correspond_input(sch["kind"], inp, mo.get(inp["in"]), stats) if want_model else []
             if stats is not None:
                 stats["inputs"] += 1
                 stats["candidates"] += len(inp["c"])
@@ -725,6 +899,9 @@ def evaluate(run, cfgs, inputs_by_cfg, stats=None, want_model=True):
                 if sch["kind"] == "table":
                     stats["table_sentences"] += 1 if inp["c"] and inp["c"][0][0] == "sentence" else 0
                     stats["table_sentence_mode_inputs"] += 1 if cfg.get("sentence") else 0
+                    stats["sentence_over_completion_inputs"] += 1 if cfg.get("soc") else 0
+                    stats["sentences_over_completions"] += 1 if (cfg.get("soc") and len(inp["c"]) > 1 and inp["c"][0][0] == "sentence"
+                                                                 and inp["c"][1][0] == "completion") else 0
                     stats["table_inputs_with_inner_delimiter"] += 1 if any(ch in cfg["delims"] for ch in _unhex(inp["in"]).decode("latin-1").rstrip(cfg["delims"])) else 0
                 stats["with_completion"] += 1 if any(x[0] == "completion" for x in inp["c"]) else 0
                 stats["long_code_hits"] += sum(1 for v in inp["lk"].values() for x in v if x[2].count(",") >= 3)
@@ -800,7 +977,51 @@ def run(c):
     n_cfg, max_len, n_rand = (48, 4, 40) if quick else (400, 5, 100)
     stats = {"configurations": 0, "inputs": 0, "candidates": 0, "lookup_entries": 0, "with_sentence": 0, "with_completion": 0,
              "long_code_hits": 0, "graph_edges": 0, "ambiguous": 0, "nontrivial": set(), "algebra": {}, "completion_on": 0,
-             "sort_original": 0, "table_sentences": 0, "table_sentence_mode_inputs": 0, "table_inputs_with_inner_delimiter": 0, "sentence_on": 0, "shrink_evals": 0, "crashes": 0, "exhaustive_length": max_len, "styles": {}}
+             "sort_original": 0, "table_sentences": 0, "table_sentence_mode_inputs": 0, "table_inputs_with_inner_delimiter": 0, "sentence_on": 0, "shrink_evals": 0, "crashes": 0, "exhaustive_length": max_len, "styles": {},
+             "options": {}, "word_completion_differs_from_completion": 0, "sentence_over_completion_inputs": 0, "sentences_over_completions": 0,
+             "sentences_compared_with_port": 0, "sentence_exact_vs_double_ties": 0, "sentence_rounding_ties": 0,
+             "sentence_weights_bit_identical": 0,
+             "poet_cases": 0, "poet_corpus_cases": 0, "poet_edges": 0, "poet_paths_enumerated": 0, "poet_with_empty_edges": 0,
+             "poet_none": 0, "poet_sentences": 0, "poet_with_choice": 0, "poet_compare_functions_differ": 0,
+             "poet_optimality_checked": 0, "poet_tiebreak_checked": 0}
+    # ---- the sentence maker alone: real Poet::MakeSentence vs the Lean port on generated word graphs, brute-force monitor
+    n_poet = 20000 if quick else 300000
+    poet_fails, poet_diffs, poet_crash = c07_poet.check(c, run_.exe, n_poet, stats)
+    poet_nontrivial = stats.pop("poet_nontrivial", set())
+    seen_poet = set()
+    if poet_crash:
+        stats["crashes"] += 1
+        c.report("C07:poet:crash", poet_crash[:600], {"kind": "impl-violation", "clause": "crash", "detail": poet_crash}, no_input=True)
+    for clause, det, line in poet_fails:
+        sig = "C07:poet:%s" % clause
+        if sig in seen_poet:
+            continue
+        seen_poet.add(sig)
+        which = "cw" if det.startswith("CompareWeight") else "la"
+
+        def still(cs, impl_line, model_line, clause=clause, which=which):
+            r = c07_poet.parse_line(impl_line)
+            if r is None:
+                return clause == "bad-op"
+            try:
+                return any(cl == clause for cl, _ in c07_poet.monitor(cs, c07_poet.parse_result(r[which]), which))
+            except Exception:     # noqa
+                return False
+        small, ev = c07_poet.shrink(c, run_.exe, line, still) if line else (line, 0)
+        stats["shrink_evals"] += ev
+        c.report(sig, "Poet::MakeSentence on the word graph `%s`: %s" % (small[:300], det[:300]),
+                 {"kind": "impl-violation", "clause": clause, "poet_op": small, "poet_op_found": line, "detail": det,
+                  "source_hash": vlib.source_hash(SRC_FILES), "gen_version": GEN_VERSION})
+    if not poet_fails and poet_diffs:
+        det, line = poet_diffs[0]
+
+        def differs(cs, impl_line, model_line):
+            return impl_line != model_line
+        small, ev = c07_poet.shrink(c, run_.exe, line, differs) if line else (line, 0)
+        stats["shrink_evals"] += ev
+        c.report("C07:correspondence:poet", "the Lean port of the poet and Poet::MakeSentence disagree on `%s`: %s" % (small[:300], det[:400]),
+                 {"kind": "correspondence", "broken": "correspondence driver_c07 (op poet) vs c07_harness --poet", "poet_op": small,
+                  "poet_op_found": line, "detail": det, "disagreements": len(poet_diffs)}, no_input=True)
     items = corpus_items()
     for i in range(n_cfg):
         cfg = gen_config(c.rng, "k%d" % i, quick)
@@ -816,6 +1037,10 @@ def run(c):
             stats["algebra"][a] = stats["algebra"].get(a, 0) + 1
             stats["completion_on"] += 1 if cfg["completion"] else 0
             stats["sentence_on"] += 1 if cfg.get("sentence") else 0
+            stats["word_completion_differs_from_completion"] += 1 if cfg.get("word_completion", cfg["completion"]) != cfg["completion"] else 0
+            for k, v in sorted((cfg.get("opts") or {}).items()):
+                key = "%s=%s" % (k, "absent" if v is None else yaml_value(v))
+                stats["options"][key] = stats["options"].get(key, 0) + 1
             stats["styles"][cfg.get("style", "corpus")] = stats["styles"].get(cfg.get("style", "corpus"), 0) + 1
             stats["sort_original"] += 1 if cfg["case"]["files"][0].get("sort") == "original" else 0
         if crash:
@@ -854,28 +1079,53 @@ def run(c):
     cov = vlib.proof_cov(audit, "lake build RimeModel.Props.C07 && #print axioms (all theorems) && forbidden-token scan"
                          + ("" if quick else " && leanchecker RimeModel.Props.C07"),
                          vlib.STD_TRUSTED + ["the real Syllabifier and Prism as recorded inputs (C08, C09)", "the compiled table (C06)",
-                                             "Poet (sentence) as an oracle"])
+                                             "IEEE double arithmetic of the compiler and of Lean's Float (the poet's port is run with both "
+                                             "doubles and exact dyadic numbers)"])
     nontrivial = stats.pop("nontrivial")
     cov.update({
-        "evaluations": stats["inputs"], "distinct_nontrivial": len(nontrivial),
+        "evaluations": stats["inputs"] + stats["poet_cases"], "distinct_nontrivial": len(nontrivial) + len(poet_nontrivial),
+        "poet_rule": "one poet evaluation = one generated word graph (positions <= 8; edges forward; 0-9 entries per edge; kinds: random, "
+                     "ties, dense, lone [0,total) edge, chain, gaps, total 0, total beyond the graph, edges without entries, table-like "
+                     "edges without entries, non-dyadic weights, many entries) given to the REAL Poet::MakeSentence with CompareWeight and "
+                     "with LeftAssociateCompare; result compared bit for bit with the Lean port (doubles, same operations) and judged "
+                     "directly: a path of graph entries from 0 to total other than the single edge, fields of the Sentence, weight = the "
+                     "fold, optimal among all paths by enumeration, LeftAssociateCompare's tie-breaking where rounding cannot interfere; "
+                     "non-trivial = at least two paths; distinct by (compare function, words, edges, paths, word lengths)",
         "rule": "one evaluation = one input string on one deployed schema (script-style or table-style) of one generated dictionary: "
                 "syllable graph, Dictionary::Lookup, candidate list recorded from the real code, compared with the Lean model and with a "
                 "brute-force reference over the source rows; all inputs over alphabet+delimiters up to length %d plus %d random longer "
                 "ones per configuration; corpus first. non-trivial = at least two candidates; distinct by (schema kind, number of "
                 "candidates, graph edges, interpreted/input length, candidate types)" % (max_len, n_rand),
         "samples": [{"kind": x[0], "candidates": x[1], "graph_edges": x[2]} for x in sorted(nontrivial, key=str)[:: max(1, len(nontrivial) // 5)][:6]],
-        "distribution": stats, "model_impl_disagreements": len(all_diffs), "impl_monitor_failures": len(all_fails),
+        "distribution": stats, "model_impl_disagreements": len(all_diffs) + len(poet_diffs),
+        "impl_monitor_failures": len(all_fails) + len(poet_fails),
         "harness_seconds": round(run_.harness_s, 1), "model_seconds": round(run_.model_s, 1),
         "source_hash": vlib.source_hash(SRC_FILES), "gen_version": GEN_VERSION, "proof_failures": audit["failures"],
     })
     c.cov = cov
-    c.assumptions = ["enable_user_dict: false, no corrector, no contextual suggestions, no packs, max_homophones default",
+    c.assumptions = ["enable_user_dict: false; options generated as absent / explicit value (OPTION_VALUES): never enable_correction, enable_charset_filter, sentence_over_completion true, max_homophones / max_homographs other than 1; no packs",
                      "the input is one abc segment (first byte a letter of the alphabet)",
-                     "the syllable graph, the prism's key lists and the sentence are recorded from the implementation and given to the model",
+                     "the syllable graph and the prism's key lists are recorded from the implementation and given to the model (the sentence is NOT: the port of the poet computes it)",
+                     "word graphs given to the poet have forward edges and come in std::map order (both callers build them so; an edge that does not go forward makes the real code loop)",
                      "credibility + weight is compared exactly in the model (the code rounds the sum to double)"]
 
 
 def replay(c, r):
+    if r.get("poet_op"):
+        run_ = Runner(c)
+        case = c07_poet.parse_op(r["poet_op"])
+        rc, out, impl, model, _, _ = c07_poet.run_cases(c, run_.exe, [("replay", case)])
+        res = c07_poet.parse_line(impl[0]) if impl else None
+        bad = []
+        if res:
+            for which in ("cw", "la"):
+                bad += [(which, cl, det) for cl, det in c07_poet.monitor(case, c07_poet.parse_result(res[which]), which)]
+        diff = bool(impl) and bool(model) and impl[0] != model[0]
+        print("replay poet op %s\n  impl  %s\n  model %s\n  monitor %s" % (r["poet_op"], impl[:1], model[:1], bad or "ok"))
+        if r.get("kind") == "correspondence":
+            return 1 if diff or rc != 0 else 0
+        want = r.get("clause")
+        return 1 if rc != 0 or any(cl == want for _, cl, _ in bad) else 0
     if "config" not in r or not r.get("inputs"):
         print("replay: this file names a broken obligation, no concrete input:", r.get("what"))
         return 1
